@@ -56,6 +56,14 @@ def cases(tier, seed):
             d.update({"fields": ["temp", "density", "Z"], "layout": lay, "seed": seed,
                       "payload": "hostile" if li % 3 == 1 else (["coded", "signed", "zerofine"] if li % 3 == 2 else "coded")})
             out.append({"desc": d, "w": nlev * (1 + max(len(l["files"]) if l else 1 for l in lay))})
+    # level directories named otherwise than Level_k; a plotfile that was marinated before (a pickle sits beside it)
+    m = scope.named_meshes(3)[2]
+    for extra in ({"levelprefix": "Lev_"}, {"marinated": True}):
+        d = dict(m)
+        d.update(geos[1])
+        d.update({"fields": ["temp", "density", "Z"], "layout": [scope.layouts(len(b), 'idrev')[-1] for b in m["levels"]], "seed": seed, "payload": "signed"})
+        d.update({k_: v_ for k_, v_ in extra.items() if k_ == "levelprefix"})
+        out.append({"desc": d, "w": 12, "marinated": bool(extra.get("marinated"))})
     # field names that differ only by letter case
     m = scope.named_meshes(3)[1]
     d = dict(m)
@@ -91,6 +99,15 @@ def run_case(case, workdir):
     dh = h64(desc)
     names = desc["fields"]
     os.chdir(workdir)
+    if case.get("marinated"):
+        import amr_kitchen.marinate as marinate
+        old_ = sys.argv
+        sys.argv = ["marinate", "plt00000"]
+        try:
+            with vpool.controlled():
+                marinate.main()
+        finally:
+            sys.argv = old_
     k = 0
     deep = bool(case.get("deep"))
     for limit in ([None, 1] if deep else [None] + list(range(ref.nlevels))):
